@@ -10,13 +10,14 @@ build directory (/tmp/val) are shared between invocations (incremental builds) a
 """
 import sys, os, subprocess, json, shutil, time
 
-WT = "/tmp/val/wt"; BUILD = "/tmp/val/build"
+VAL = os.environ.get("VAL_DIR", "/tmp/val")   # (several validations can run side by side, each with a directory of its own)
+WT = VAL + "/wt"; BUILD = VAL + "/build"
 def sh(cmd, **kw):
     return subprocess.run(cmd, shell=True, stdout=subprocess.PIPE, stderr=subprocess.STDOUT, text=True, **kw)
 
 def ensure_wt():
     if not os.path.isdir(WT):
-        os.makedirs("/tmp/val", exist_ok=True)
+        os.makedirs(VAL, exist_ok=True)
         r = sh("git -C /repo worktree add --detach %s HEAD" % WT)
         if r.returncode != 0: print(r.stdout); sys.exit(2)
     else:
@@ -30,7 +31,7 @@ def build():
     return r.returncode == 0, r.stdout[-3000:]
 
 def run_demo(src):
-    exe = "/tmp/val/demo_bin"
+    exe = VAL + "/demo_bin"
     if os.path.exists(os.path.join(src, "demo.sh")):
         if os.path.exists(exe): os.remove(exe)
         r = sh("WT=%s BUILD=%s sh %s/demo.sh %s %s" % (WT, BUILD, src, WT, exe), timeout=600)
@@ -49,7 +50,7 @@ def run_demo(src):
 
 def main():
     if sys.argv[1] == "--cleanup":
-        sh("git -C /repo worktree remove --force %s" % WT); shutil.rmtree("/tmp/val", ignore_errors=True); sh("git -C /repo worktree prune"); return 0
+        sh("git -C /repo worktree remove --force %s" % WT); shutil.rmtree(VAL, ignore_errors=True); sh("git -C /repo worktree prune"); return 0
     src, sid, prop = sys.argv[1], sys.argv[2], sys.argv[3]
     res = dict(id=sid, property=prop, source=src, repo_head=sh("git -C /repo rev-parse --short HEAD").stdout.strip(), validated_at=time.strftime("%Y-%m-%dT%H:%M:%SZ", time.gmtime()))
     ensure_wt()
